@@ -132,6 +132,12 @@ def run(tier, seed, replay):
     thorough = tier == "thorough"
     debug_frame(chk)
     other_option_frames(chk)
+    # inline content and stored content reach the analysis unchanged: File.source for every
+    # path and every content (open(path).read() is an uninterpreted function of the path)
+    from ..specs import cli as CL
+    E = chk.engine()
+    CL.install_disk(E)
+    chk.run_contract(E, CL.file_source_contract())
     # colour lemma: complete evaluation over the catalogue on the real formatter
     t0 = time.time()
     nat = run_native("options_harness", {"op": "colors"})
@@ -153,7 +159,7 @@ def run(tier, seed, replay):
                     "of the #define check",
                     nat["bound"], nat["cases"], nat["violations"], nontrivial=nat["nontrivial"], samples=nat["samples"],
                     time_s=time.time() - t0)
-    explained = any(i.status == "failed" for i in chk.items)
+    explained = chk.has_unlisted_failure()
     if nat["violations"] and not explained:
         v = nat["violations"][0]
         chk.report_violation("C16.bounded.cli", {"property": "C16", "obligation": "C16.bounded.cli", "replay": v["task"],
@@ -164,6 +170,8 @@ def run(tier, seed, replay):
         "reading used for -R CheckDefine: it removes exactly the diagnostics of CheckPreprocessorDefine "
         "(MACRO_NAME_CAPITAL, MACRO_FUNC_FORBIDDEN, PREPROC_CONSTANT) and nothing of any other check",
         "argparse puts each option into the attribute its add_argument names (trusted)",
+        "File.source: open(path).read() is modelled as an uninterpreted function of the path (it may raise OSError); "
+        "text-mode newline translation of the platform is part of that function",
         "-f: the agreement of the two formatters is C08's bounded stand-in",
     ]
     return chk.finish(level_if_complete="other", explanation="reads-frames of the options by AST scan; colour and inline-content lemmas by "
